@@ -424,7 +424,7 @@ def srec_stream(r, recs):
 def corrupt_line(r, line, fmt):
     """returns (kind, newline). kinds: cksum (only the checksum byte differs), len, char, trunc, tail"""
     k = r.choice(["cksum", "cksum", "cksum", "len", "char", "trunc", "tail", "sign"])
-    l = bytearray(line)
+    l = bytearray(line.strip())
     if k == "cksum":
         old = int(bytes(l[-2:]), 16)
         new = r.choice([x for x in range(256) if x != old])
@@ -459,3 +459,118 @@ def corrupt_bytes(r, b, region=0x400, n=None):
         pos = r.randrange(min(len(bb), region)) if r.random() < 0.7 else r.randrange(len(bb))
         bb[pos] = r.choice([0, 0xff, r.getrandbits(8), bb[pos] ^ (1 << r.randrange(8))])
     return bytes(bb)
+
+
+# ---------------------------------------------------------------------------------------
+# PE / Mach-O header sets (header level only)
+# ---------------------------------------------------------------------------------------
+
+def synth_pe(r):
+    """DOS header, NT headers, optional header (PE32 / PE32+) with 16 empty data directories and
+    a section table; raw data of the sections follows at FileAlignment."""
+    plus = r.random() < 0.5
+    lfanew = r.choice([64, 0x80, 0xe8, 0x100])
+    nsec = r.randint(0, 5)
+    falign, salign = 0x200, 0x1000
+    base = r.choice([0x400000, 0x10000000, 0x140000000 if plus else 0x1000000])
+    dos = b"MZ" + bytes(r.getrandbits(8) for _ in range(58)) + struct.pack("<I", lfanew)
+    stub = bytes(r.getrandbits(8) for _ in range(lfanew - 64))
+    optsize = (112 if plus else 96) + 16 * 8
+    hdrs_end = lfanew + 24 + optsize + 40 * nsec
+    sizeofheaders = (hdrs_end + falign - 1) // falign * falign
+    secs = []
+    raw = sizeofheaders
+    rva = salign
+    for i in range(nsec):
+        vs = r.choice([1, 0x10, 0x234, 0x1000, 0x1800])
+        rs = (min(vs, 0x400) + falign - 1) // falign * falign if r.random() < 0.85 else 0
+        name = r.choice([b".text", b".data", b".rdata", b".rsrc", b".reloc", b"UPX0", b".bss"]).ljust(8, b"\0")
+        secs.append(dict(Name=name, VirtualSize=vs, RVA=rva, SizeOfRawData=rs, PointerToRawData=raw if rs else 0,
+                         PointerToRelocations=0, PointerToLineNumbers=0, NumberOfRelocations=0, NumberOfLineNumbers=0,
+                         Characteristics=r.choice([0x60000020, 0xC0000040, 0x40000040, 0xC0000080])))
+        raw += rs
+        rva += (vs + salign - 1) // salign * salign
+    entry = (secs[0]["RVA"] + r.randrange(secs[0]["VirtualSize"])) if secs else 0
+    nt = dict(Signature=0x4550, Machine=0x8664 if plus else 0x14c, NumberOfSections=nsec, TimeDateStamp=r.getrandbits(32),
+              PointerToSymbolTable=0, NumberOfSymbols=0, SizeOfOptionalHeader=optsize, Characteristics=r.choice([0x102, 0x22, 0x2102]))
+    coffhdr = struct.pack("<IHHIIIHH", nt["Signature"], nt["Machine"], nt["NumberOfSections"], nt["TimeDateStamp"],
+                          nt["PointerToSymbolTable"], nt["NumberOfSymbols"], nt["SizeOfOptionalHeader"], nt["Characteristics"])
+    opt = dict(Magic=0x20b if plus else 0x10b, MajorLinkerVersion=14, MinorLinkerVersion=r.getrandbits(8), SizeOfCode=0x1000,
+               SizeOfInitializedData=0x800, SizeOfUninitializedData=0, AddressOfEntryPoint=entry, BaseOfCode=salign,
+               BaseOfData=0x2000, ImageBase=base, SectionAlignment=salign, FileAlignment=falign,
+               MajorOperatingSystemVersion=6, MinorOperatingSystemVersion=0, MajorImageVersion=0, MinorImageVersion=0,
+               MajorSubsystemVersion=6, MinorSubsystemVersion=0, Win32VersionValue=0, SizeOfImage=rva, SizeOfHeaders=sizeofheaders,
+               CheckSum=r.getrandbits(32), Subsystem=r.choice([2, 3]), DllCharacteristics=r.choice([0x8160, 0x140, 0]),
+               SizeOfStackReserve=0x100000, SizeOfStackCommit=0x1000, SizeOfHeapReserve=0x100000, SizeOfHeapCommit=0x1000,
+               LoaderFlags=0, NumberOfRvaAndSizes=16)
+    if plus:
+        del opt["BaseOfData"]
+        o = struct.pack("<HBBIIIII", opt["Magic"], opt["MajorLinkerVersion"], opt["MinorLinkerVersion"], opt["SizeOfCode"],
+                        opt["SizeOfInitializedData"], opt["SizeOfUninitializedData"], opt["AddressOfEntryPoint"], opt["BaseOfCode"])
+        o += struct.pack("<QIIHHHHHHIIIIHHQQQQII", opt["ImageBase"], opt["SectionAlignment"], opt["FileAlignment"],
+                         opt["MajorOperatingSystemVersion"], opt["MinorOperatingSystemVersion"], opt["MajorImageVersion"],
+                         opt["MinorImageVersion"], opt["MajorSubsystemVersion"], opt["MinorSubsystemVersion"], opt["Win32VersionValue"],
+                         opt["SizeOfImage"], opt["SizeOfHeaders"], opt["CheckSum"], opt["Subsystem"], opt["DllCharacteristics"],
+                         opt["SizeOfStackReserve"], opt["SizeOfStackCommit"], opt["SizeOfHeapReserve"], opt["SizeOfHeapCommit"],
+                         opt["LoaderFlags"], opt["NumberOfRvaAndSizes"])
+    else:
+        o = struct.pack("<HBBIIIIII", opt["Magic"], opt["MajorLinkerVersion"], opt["MinorLinkerVersion"], opt["SizeOfCode"],
+                        opt["SizeOfInitializedData"], opt["SizeOfUninitializedData"], opt["AddressOfEntryPoint"], opt["BaseOfCode"],
+                        opt["BaseOfData"])
+        o += struct.pack("<IIIHHHHHHIIIIHHIIIIII", opt["ImageBase"], opt["SectionAlignment"], opt["FileAlignment"],
+                         opt["MajorOperatingSystemVersion"], opt["MinorOperatingSystemVersion"], opt["MajorImageVersion"],
+                         opt["MinorImageVersion"], opt["MajorSubsystemVersion"], opt["MinorSubsystemVersion"], opt["Win32VersionValue"],
+                         opt["SizeOfImage"], opt["SizeOfHeaders"], opt["CheckSum"], opt["Subsystem"], opt["DllCharacteristics"],
+                         opt["SizeOfStackReserve"], opt["SizeOfStackCommit"], opt["SizeOfHeapReserve"], opt["SizeOfHeapCommit"],
+                         opt["LoaderFlags"], opt["NumberOfRvaAndSizes"])
+    o += b"\0" * (16 * 8)
+    st = b"".join(struct.pack("<8sIIIIIIHHI", s["Name"], s["VirtualSize"], s["RVA"], s["SizeOfRawData"], s["PointerToRawData"],
+                              s["PointerToRelocations"], s["PointerToLineNumbers"], s["NumberOfRelocations"],
+                              s["NumberOfLineNumbers"], s["Characteristics"]) for s in secs)
+    out = bytearray(dos + stub + coffhdr + o + st)
+    out += b"\0" * (sizeofheaders - len(out))
+    for s in secs:
+        out += bytes(r.getrandbits(8) for _ in range(s["SizeOfRawData"]))
+    return bytes(out), {"plus": plus, "nsec": nsec, "lfanew": lfanew}
+
+
+def synth_macho(r):
+    """mach_header(_64) + LC_SEGMENT(_64) commands with sections + an LC_UUID command."""
+    x64 = r.random() < 0.6
+    nseg = r.randint(1, 4)
+    cmds = []
+    fileoff = 0
+    vm = 0x100000000 if x64 else 0x1000
+    for i in range(nseg):
+        nsects = r.randint(0, 3)
+        segname = [b"__PAGEZERO", b"__TEXT", b"__DATA", b"__LINKEDIT"][i].ljust(16, b"\0")
+        vmsize = 0x1000 * r.randint(1, 4)
+        filesize = r.choice([0, 0x1000, vmsize])
+        secs = b""
+        for k in range(nsects):
+            sn = r.choice([b"__text", b"__stubs", b"__data", b"__cstring", b"__bss"]).ljust(16, b"\0")
+            if x64:
+                secs += struct.pack("<16s16sQQIIIIIIII", sn, segname, vm + 0x100 * k, 0x80, fileoff + 0x100 * k, r.choice([0, 2, 4]),
+                                    0, 0, r.choice([0x80000400, 0, 1, 8]), 0, 0, 0)
+            else:
+                secs += struct.pack("<16s16sIIIIIIIII", sn, segname, vm + 0x100 * k, 0x80, fileoff + 0x100 * k, r.choice([0, 2, 4]),
+                                    0, 0, r.choice([0x80000400, 0, 1, 8]), 0, 0)
+        if x64:
+            body = struct.pack("<16sQQQQiiII", segname, vm, vmsize, fileoff, filesize, 7, r.choice([1, 3, 5]), nsects, 0)
+            cmd = struct.pack("<II", 0x19, 8 + len(body) + len(secs)) + body + secs
+        else:
+            body = struct.pack("<16sIIIIiiII", segname, vm, vmsize, fileoff, filesize, 7, r.choice([1, 3, 5]), nsects, 0)
+            cmd = struct.pack("<II", 0x1, 8 + len(body) + len(secs)) + body + secs
+        cmds.append(cmd)
+        vm += vmsize
+        fileoff += filesize
+    cmds.append(struct.pack("<II16s", 0x1b, 24, bytes(r.getrandbits(8) for _ in range(16))))
+    r.shuffle(cmds)
+    lc = b"".join(cmds)
+    if x64:
+        hdr = struct.pack("<IiiIIIII", 0xFEEDFACF, 0x01000007, 3, r.choice([2, 6, 1]), len(cmds), len(lc), r.choice([0x200085, 0x85, 0]), 0)
+    else:
+        hdr = struct.pack("<IiiIIII", 0xFEEDFACE, r.choice([7, 12]), 3, r.choice([2, 6, 1]), len(cmds), len(lc), r.choice([0x85, 0]))
+    out = hdr + lc
+    out += b"\0" * (max(fileoff, len(out)) + 0x100 - len(out))
+    return out, {"x64": x64, "ncmds": len(cmds)}
